@@ -208,6 +208,40 @@ Proof.
 Qed.
 Print Assumptions C15_plus_associative.
 
+(* merge is commutative up to the obvious re-labelling: merge a b p and
+   merge b a (1 - p) (a + b and b + a for the default) have the same weighted
+   mean of EVERY statistic, hence the same average and spread vectors (the
+   per-trajectory lists come in the other order) *)
+Theorem C15_merge_commutative :
+  forall n a b p r r', inv n a -> inv n b -> (0 < num a)%nat -> (0 < num b)%nat ->
+    let l := merge_obj a b p r in
+    let m := merge_obj b a (match p with Some q => Some (1 - q) | None => None end) r' in
+    (forall f, meanf f l = meanf f m) /\ num l = num m /\ average l = average m /\ variance l = variance m.
+Proof. exact merge_comm. Qed.
+Print Assumptions C15_merge_commutative.
+
+(* merge is associative for ARBITRARY mixing weights p, q with p q <> 1 (in
+   particular all p, q in (0,1)):
+   (a (+)_p b) (+)_q c = a (+)_{pq} (b (+)_{q(1-p)/(1-pq)} c), for every
+   statistic, the seeds and the reported average / spread; `inv n x` holds for
+   every object reached by any history (C15_sums_are_weighted_sums) *)
+Theorem C15_merge_associative_any_p :
+  forall n a b c p q r1 r2 r3 r4, inv n a -> inv n b -> inv n c ->
+    (0 < num a)%nat -> (0 < num b)%nat -> (0 < num c)%nat -> p * q <> 1 ->
+    let l := merge_obj (merge_obj a b (Some p) r1) c (Some q) r2 in
+    let m := merge_obj a (merge_obj b c (Some (q * (1 - p) / (1 - p * q))) r3) (Some (p * q)) r4 in
+    (forall f, meanf f l = meanf f m) /\ num l = num m /\ seeds l = seeds m /\
+    average l = average m /\ variance l = variance m.
+Proof. exact merge_assoc_any. Qed.
+Print Assumptions C15_merge_associative_any_p.
+
+(* every object reached satisfies the invariant the two theorems above ask for *)
+Theorem C15_reached_objects_satisfy_inv :
+  forall n ops x i, Forall (op_shaped n) ops ->
+    nth_error (objs (run empty_world ops)) i = Some x -> inv n x.
+Proof. exact reach_inv. Qed.
+Print Assumptions C15_reached_objects_satisfy_inv.
+
 (* per-trajectory data stay aligned after ANY history, whatever mixture of
    keep_runs_results options: the processors match the options, the
    deterministic trajectories are those of the ensemble (aligned with
@@ -346,3 +380,21 @@ Example C15_old_rule_mixed_keep :
   proc_store (merge_obj x y None 2%nat) = false /\
   trajs (add (merge_obj x y None 2%nat) (t 2 [(3, 1)]) None) = [].
 Proof. repeat split; vm_compute; reflexivity. Qed.
+
+Example C15_nonvacuous_associativity :
+  let t (s : Z) e := mkt s 0 0 e in
+  let a := fill (new_obj false 0%nat) [IRel (t 0 [(1, 1)]) None; IDet (t 1 [(3, 1)]) (mkq 1 2)] in
+  let b := fill (new_obj false 1%nat) [IRel (t 2 [(5, 1)]) (Some (mkq 2 1)); IRel (t 3 [(2, 1)]) None] in
+  let c := fill (new_obj false 2%nat) [IRel (t 4 [(7, 1)]) None] in
+  let p := mkq 1 4 in let q := mkq 1 2 in
+  (p * q)%Qc <> 1%Qc /\ (0 < num a)%nat /\ (0 < num b)%nat /\ (0 < num c)%nat /\
+  option_map vz (average (merge_obj (merge_obj a b (Some p) 3%nat) c (Some q) 4%nat)) = Some [(655, 128)] /\
+  option_map vz (average (merge_obj a (merge_obj b c (Some (q * (1 - p) / (1 - p * q))%Qc) 3%nat)
+                                   (Some (p * q)%Qc) 4%nat)) = Some [(655, 128)] /\
+  option_map vz (average (merge_obj b a (Some (1 - p)%Qc) 3%nat)) =
+  option_map vz (average (merge_obj a b (Some p) 3%nat)).
+Proof.
+  split; [intros H; apply (f_equal this) in H; vm_compute in H; discriminate|].
+  split; [vm_compute; lia|]. split; [vm_compute; lia|]. split; [vm_compute; lia|].
+  split; [vm_compute; reflexivity|]. split; vm_compute; reflexivity.
+Qed.
